@@ -3,6 +3,7 @@
   functions with the `open_span` flag as explicit state.
 -/
 import PcVerif.Model.Caption
+import PcVerif.Generated.Format
 namespace PcVerif.TextW
 open Str
 
@@ -67,8 +68,9 @@ inductive LNode
   | style (start : Bool) (f : Flags)
   deriving DecidableEq, Repr
 
+/-- `_encode_illegal_characters`: the chain of `str.replace` calls, in source order (regenerated from the source) -/
 def vttEncode (s : Str) : Str :=
-  replace "-->".toList "--&gt;".toList (replace "<".toList "&lt;".toList (replace "&".toList "&amp;".toList s))
+  Generated.vttEscapes.foldl (fun acc p => replace p.1.toList p.2.toList acc) s
 
 def vttTags (start : Bool) (f : Flags) : Str :=
   if start then
